@@ -35,9 +35,9 @@ type App struct {
 	Funcs     map[string]Func
 	// Static symbols: LOAD symbols whose content is stored data (db.DATATYPE_STATICLOAD) with optional
 	// translations, not code. The in-memory resource serves them as functions of the language.
-	Static     map[string]string
+	Static map[string]string
 	// First: the engine gets a first function (engine.WithFirst) that answers with empty content and no flags.
-	First bool
+	First      bool
 	StaticLang map[string]map[string]string // lang -> symbol -> content
 	FlagCount  uint32
 	Inputs     []string // the application's selector alphabet
